@@ -41,7 +41,7 @@ func c04candidate(epoch idx.Epoch, creator idx.ValidatorID, sp *cons.Ev, others 
 
 func runC04(c *ev.Ctx) {
 	c.Rule = "DAGs generated through a real instance (forks <1/3, lag, sleeper regime). A test instance T receives the events by Process only. At seeded points (preferring events that start a new frame) a restarted copy of T (fresh Build counter, default-size forkless-cause cache) gets a burst of K speculative Builds " +
-		"(K in {0,1,2,17,254,255,256,257,300,600; thorough also 1000,3000}; variants: self-parent only, random parent subsets, the full event repeated, candidates of other creators) followed by the Build of the real event: EVERY build's frame must equal the reference's highest allowed frame (cap 100). " +
+		"(K in {0,1,2,17,254,255,256,257,300,600; thorough also 1000,3000}; variants: self-parent only, random parent subsets, the full event repeated, candidates of other creators) followed (in a third of the points after re-creating the consensus object over the same vecfc.Index object, which restarts the Build counter) by the Build of the real event: EVERY build's frame must equal the reference's highest allowed frame (cap 100). " +
 		"Process side: on throw-away copies, clones of valid events with fresh IDs and claimed frame in {0,1,sp-1,sp..max,max+1,max+2,max+100,2^31-3} are accepted iff the reference allows the frame. One long-lag case per 40 DAGs: a validator silent for >100 frames then building (Build must give self-parent+100; Process accepts up to the true maximum and rejects maximum+1). " +
 		"non-trivial = distinct (DAG, point) where the real event's highest allowed frame exceeds its self-parent's frame, or the build was preceded by >=256 speculative builds"
 	c.Assumptions = []string{"reference frame rule = C04 statement evaluated on the graph closure", "cheaters < 1/3"}
@@ -207,6 +207,23 @@ func c04Point(c *ev.Ctx, r *rand.Rand, caseN, k int, d *cons.DAG, T *cons.Inst, 
 		}
 	}
 	real := c04candidate(plan.Epoch, e.Creator(), sp, others)
+	if r.Intn(3) == 0 && len(others) > 0 {
+		// speculative builds carrying the real event's Lamport time but fewer parents, then the consensus object is
+		// re-created over the SAME index object: the Build counter starts again, so the same temporary IDs are handed
+		// out a second time, now for other parents
+		for n := 0; n < 1+r.Intn(3); n++ {
+			dec := c04candidate(plan.Epoch, e.Creator(), sp, others[:r.Intn(len(others))])
+			dec.SetLamport(real.Lamport())
+			if err := B.Build(dec); err != nil {
+				m := desc()
+				m["error"] = err.Error()
+				c.Violation("build-failed", m)
+				return false
+			}
+		}
+		B = B.RestartKeepIndex()
+		c.Count("restarts_keeping_the_index_object_between_builds", 1)
+	}
 	if r.Intn(3) == 0 {
 		// an emitter that builds a draft, then adds parents to the SAME object (which now carries the
 		// draft's ID) and builds again
